@@ -207,7 +207,8 @@ def clashes(case):
     for f in files:
         for c in f["calls"]:
             h = handler(case, c["name"])
-            calls.append((h["name"] if h else None, c["name"], case["types"][c["type"]]["go"], arity(c["plugin"])))
+            # argument type list = (type, number of arguments): lists of different length are different lists
+            calls.append((h["name"] if h else None, c["name"], case["types"][c["type"]]["go"], c.get("arity") or arity(c["plugin"])))
     conflict = duplicate = False
     for i in range(len(calls)):
         for j in range(i + 1, len(calls)):
@@ -223,7 +224,7 @@ def clashes(case):
 
 
 def arity(plugin):
-    return 2 if plugin in ("equal", "compare", "deepcopy") else 1
+    return 2 if plugin in ("equal", "compare", "deepcopy", "tuple") else 1
 
 
 def spec_verdict(case, variant):
@@ -259,7 +260,7 @@ def compare_case(case, variant, obs, model, check_types=True):
     """Returns (spec_problem, corr_problem): strings or None."""
     spec = None
     corr = None
-    want = spec_verdict(case, variant) if case["stream"] in ("exhaustive", "random") else None
+    want = spec_verdict(case, variant) if case["stream"] in ("exhaustive", "exhaustive-arity", "random") else None
     if obs["class"] in ("timeout", "other", "panic"):
         spec = "goderive ended with %s (rc=%s): %s" % (obs["class"], obs["rc"], obs.get("stderr", "")[:300])
         return spec, corr
